@@ -612,6 +612,50 @@ func genBoundaryOption(c *Ctx, i int) Case {
 	return g
 }
 
+// genFormatOption: load options whose description and whose file-path names contain the characters that a text
+// formatting layer gives a meaning of its own - the property says the file-path node renders in the UEFI text form
+// File(<path name>) for ARBITRARY names, and a rendering that passes the name through a formatter, a template or a
+// quoting step shows only on names that hold such characters: '%' alone and followed by a verb letter, a flag, a
+// digit, another '%' or nothing (%s %d %v %x %q %! %% %5 %-), a backslash before a letter, braces, '$', quotes,
+// parentheses and commas (the separators of the text form itself).  Each at the start, in the middle and at the
+// end of an otherwise ordinary name, alone, and twice in one name.
+var formatMarks = []string{"%", "%s", "%d", "%v", "%x", "%q", "%!", "%%", "%5", "%-", "%+v", "%[1]s", "%%%", "\\n", "\\t", "{}", "{{.}}", "${x}", "$1", "\"", "'", "(", ")", ",", "()"}
+
+func genFormatOption(c *Ctx, i int) Case {
+	g := genOption(c)
+	mark := formatMarks[i%len(formatMarks)]
+	k := i / len(formatMarks)
+	var name string
+	switch k % 5 {
+	case 0:
+		name = mark + "EFI\\BOOT\\BOOTX64.EFI" // at the start
+	case 1:
+		name = "\\EFI\\tools\\100" + mark + ".efi" // in the middle
+	case 2:
+		name = "\\EFI\\BOOT\\BOOTX64" + mark // at the end
+	case 3:
+		name = mark // alone
+	default:
+		name = mark + "\\EFI\\" + mark + "\\x.efi" + mark // several times
+	}
+	desc := []string{mark + " Boot Manager", "Boot " + mark + " Manager", "Boot Manager " + mark, mark}[(k/5)%4]
+	l := 4 + len(specUtf16(name))
+	node := fmt.Sprintf("file:0404%02x%02x:%s", l&255, l>>8, hx([]byte(name)))
+	wnode := node + ":text=" + hx([]byte("File("+name+")"))
+	ns, ws := g.S("nodes"), g.S("want_nodes")
+	switch {
+	case ns == "-" || ns == "":
+		ns, ws = node, wnode
+	case k%2 == 0:
+		ns, ws = node+"|"+ns, wnode+"|"+ws
+	default:
+		ns, ws = ns+"|"+node, ws+"|"+wnode
+	}
+	g["class"] = "format-characters/" + mark
+	g["desc"], g["nodes"], g["want_nodes"] = hx([]byte(desc)), ns, ws
+	return g
+}
+
 func c18Gen(c *Ctx) {
 	// all 65536 boot numbers, exhaustively
 	for n := 0; n < 65536; n++ {
@@ -670,6 +714,13 @@ func c18Gen(c *Ctx) {
 	for i := 0; i < c.N(6*4*len(leadRunes), 40*len(leadRunes)*24) && c.NFailures() < 8; i++ {
 		c18EvalOption(c, genBoundaryOption(bsub, i))
 	}
+	// descriptions and file names that hold characters a text formatting layer gives a meaning of its own ('%'
+	// sequences, backslash escapes, braces, '$', quotes, the separators of the text form), at the start, in the middle,
+	// at the end, alone and repeated (generator of its own, as above)
+	fsub := &Ctx{Rng: mrand.New(mrand.NewSource(c.Seed*49979687 + 29 + int64(c.Shard)*1000003)), Thorough: c.Thorough}
+	for i := 0; i < c.N(5*len(formatMarks), 40*len(formatMarks)) && c.NFailures() < 8; i++ {
+		c18EvalOption(c, genFormatOption(fsub, i))
+	}
 	// sequences of 2..5 load options decoded into ONE EFILoadOption value, every result kept: captured and
 	// generated options in random order (so that a later member has fewer, as many and more nodes than
 	// an earlier one, and the same option occurs twice), some members cut inside their device path list
@@ -711,7 +762,7 @@ func c18Gen(c *Ctx) {
 
 func init() {
 	register("C18", &PropDef{
-		Rule:   "all 65536 boot numbers (exhaustive), each resolved through GetBootEntry on an in-memory store holding the firmware-named variable; boot orders of 0..64 entries; the captured Boot#### variables of tests/data/boot; generated load options of 0..5 nodes over PCI, ACPI, hard-drive (signature types GPT, MBR, none and arbitrary, with an equal or a different partition-format byte; partition numbers incl. 0), file-path (ASCII, non-BMP, empty), firmware-file and USB nodes with arbitrary field values, five fixed descriptions and random descriptions (Latin-1, code units with a zero low byte such as U+0100 and U+4E00, other BMP, non-BMP), plus 264 options whose description AND one file-path name BEGIN with a boundary character of the UTF-16 code space - U+FEFF and U+FFFE (the code units of a byte order mark: a leading U+FEFF is a character of the string, not a mark), U+FFFD, U+FFFF, U+D7FF, U+E000, U+10000, U+10FFFF, U+0100, U+00FF, U+0001 - alone, followed by text, and with the same characters again later in the string (description and file name must come back exactly, the File(...) text form included), encoded by an encoder written in the harness from the UEFI specification (the model's Spec encoder is tied to it byte for byte); every captured option and every second generated one [thorough: every one] is also decoded through the other public entry points - ParseEFILoadOption followed by ParseDevicePath, Efivarfs.GetBootEntry on an in-memory store that holds it as Boot0001, and the package-level efi.GetBootEntry - and must give the fields it was built from (captured: what Unmarshal gives); boot orders of odd length (a trailing single byte behind 0..24 complete entries, 25 orders) must decode to exactly the names of the complete entries on both accessors (F35 repair: Efivarfs.GetBootOrder made up a last entry from the trailing byte); sequences of 2..5 captured and generated load options decoded one after the other into ONE EFILoadOption value (300 sequences [thorough: 6000]; a quarter of the later members cut inside the device path list or down to 0..5 bytes, so that their decode returns an error) with every decoded result kept by the caller (struct copy and FilePath slice): each result must equal the decode of the same bytes into a fresh value and the model's, and every kept result must still read the same after all later decodes, failed ones included. Non-trivial: a non-empty order / an option longer than the minimal one / a sequence of at least two members; distinct = distinct cases.",
+		Rule:   "all 65536 boot numbers (exhaustive), each resolved through GetBootEntry on an in-memory store holding the firmware-named variable; boot orders of 0..64 entries; the captured Boot#### variables of tests/data/boot; generated load options of 0..5 nodes over PCI, ACPI, hard-drive (signature types GPT, MBR, none and arbitrary, with an equal or a different partition-format byte; partition numbers incl. 0), file-path (ASCII, non-BMP, empty), firmware-file and USB nodes with arbitrary field values, five fixed descriptions and random descriptions (Latin-1, code units with a zero low byte such as U+0100 and U+4E00, other BMP, non-BMP), plus 264 options whose description AND one file-path name BEGIN with a boundary character of the UTF-16 code space - U+FEFF and U+FFFE (the code units of a byte order mark: a leading U+FEFF is a character of the string, not a mark), U+FFFD, U+FFFF, U+D7FF, U+E000, U+10000, U+10FFFF, U+0100, U+00FF, U+0001 - alone, followed by text, and with the same characters again later in the string (description and file name must come back exactly, the File(...) text form included), plus 125 options [thorough: 1000] whose description and one file-path name hold a character sequence that a text formatting layer gives a meaning of its own - '%' alone and before a verb letter, flag, digit or another '%' (%s %d %v %x %q %! %% %5 %- %+v %[1]s %%%), backslash-n / backslash-t, {} {{.}} ${x} $1, quotes, parentheses and commas - at the start, in the middle, at the end of an ordinary name, alone, and several times in one name (the text form must be File(<path name>) with the name exactly as decoded), encoded by an encoder written in the harness from the UEFI specification (the model's Spec encoder is tied to it byte for byte); every captured option and every second generated one [thorough: every one] is also decoded through the other public entry points - ParseEFILoadOption followed by ParseDevicePath, Efivarfs.GetBootEntry on an in-memory store that holds it as Boot0001, and the package-level efi.GetBootEntry - and must give the fields it was built from (captured: what Unmarshal gives); boot orders of odd length (a trailing single byte behind 0..24 complete entries, 25 orders) must decode to exactly the names of the complete entries on both accessors (F35 repair: Efivarfs.GetBootOrder made up a last entry from the trailing byte); sequences of 2..5 captured and generated load options decoded one after the other into ONE EFILoadOption value (300 sequences [thorough: 6000]; a quarter of the later members cut inside the device path list or down to 0..5 bytes, so that their decode returns an error) with every decoded result kept by the caller (struct copy and FilePath slice): each result must equal the decode of the same bytes into a fresh value and the model's, and every kept result must still read the same after all later decodes, failed ones included. Non-trivial: a non-empty order / an option longer than the minimal one / a sequence of at least two members; distinct = distinct cases.",
 		Assume: []string{"load options handed to the in-process decoder are complete (truncated ones end the process on the unrepaired tree and are C14's domain), except the failing members of the decode sequences, which are cut inside the description / device path list and must come back as an error"},
 		Eval:   c18Eval, Gen: c18Gen,
 	})
